@@ -13,14 +13,19 @@ TECHNIQUE = ("Coq theorems over hand-written Gallina models of localfs encodeLik
 LEVEL_TEXT = ("Theorems: encodeLikely is injective on uint64 pairs and below 2^63 (bit lemmas); for every history and every interleaving of "
               "Load / atomic Add / atomic LoadOrStore the fallback table gives each pair one path for good, distinct pairs distinct paths, all "
               "above 2^63; qids.Mapper under its mutex likewise for every interleaving of Lock/lookup/NewPath/store/Unlock steps (and a refuted "
-              "lemma for the unlocked variant); all 7 x 4096 modes round-trip through OSMode/ModeFromOS and QIDType follows the type. Every run "
+              "lemma for the unlocked variant, and one for a fallback table whose miss path stores without a second look: "
+              "C20_unchecked_store_refuted); all 7 x 4096 modes round-trip through OSMode/ModeFromOS and QIDType follows the type. Every run "
               "re-checks the proofs and compares the models with the real encodeLikely/localToQid/Mapper/mode functions, sequentially and "
-              "from concurrent goroutines (also through composefs/staticfs).")
+              "from concurrent goroutines (also through composefs/staticfs); the window between a missed lookup and the insertion in "
+              "localToQid is probed by spin-barrier rounds of simultaneous FIRST lookups of fresh unlikely pairs (3000 rounds / 6 s quick), "
+              "every result of a round must be one path.")
 LEVEL_NOTE = ("Trusted: Coq kernel + vm_compute; hand models Fsx/Qid.v, QidMap.v, MapperConc.v, Mode.v (tied by differential cases and FsGen "
               "text checks); unix.Major/Minor (x/sys, outside the repo) and os.FileMode bit positions modelled by hand, compared on the "
               "generated inputs only; sequential consistency/atomicity of sync.Map, atomic.Uint64, sync.Mutex. 'Never crashes the server' "
               "(Go's concurrent map write detection) is outside the model: proved is mutual exclusion of every access to Mapper.paths and "
-              "FsGen's syntactic guardedness; a crash observed by the harness is reported as a violation.")
+              "FsGen's syntactic guardedness; a crash observed by the harness is reported as a violation. FsGen reads localToQid's "
+              "statement sequence (alpha-normalised) and REFUSES any other synchronisation structure (e.g. map + RWMutex): such a change is "
+              "reported statically unless the first-lookup probe also observes two paths for one pair (probabilistic, scheduler-dependent).")
 DESIGN_REF = "6/C20"
 ASSUMPTIONS = [
     "dev and ino are uint64 (< 2^64); fewer than 2^63 fallback allocations and 2^64 NewPath calls (counters do not wrap)",
@@ -32,7 +37,8 @@ TRUSTED_BASE = [
     "axioms: none (Print Assumptions: closed under the global context for every property theorem)",
     "go2coq ConstGen (localfs bit widths, mode and QID type constants) and FsGen (text of encodeLikely, localToQid, QIDFor, NewPath; guardedness of Mapper.paths)",
     "hand-written models Fsx/*.v, tied by harness/fsimpl/localfs/c20_qid_test.go, harness/p9/c20_mode_test.go, harness/fsimpl/qids/c20_mapper_test.go, "
-    "harness/fsimpl/composefs/c20_conc_test.go + Fsx/C20Cases.v",
+    "harness/fsimpl/composefs/c20_conc_test.go, harness/fsimpl/localfs/c20_info_test.go + Fsx/C20Cases.v",
+    "python case translator props/C20.py:to_case (JSON observation -> c20case term; concurrent results deduplicated)",
 ]
 
 
